@@ -27,10 +27,17 @@ import (
 // in production. Such runs are skipped (counted), they are neither violations nor infrastructure.
 var ErrSimBudget = errors.New("sim: wall-clock budget of the run exceeded")
 
+// wallNow is the budget clock: the CPU time this (single-P) worker process has used. Real elapsed
+// time would make a run on a loaded machine look like an exponential evaluation; time.Now() is
+// virtual inside a bubble.
 func wallNow() int64 {
-	var tv syscall.Timeval
-	_ = syscall.Gettimeofday(&tv) // real time: time.Now() is virtual inside a bubble
-	return tv.Sec*1e9 + int64(tv.Usec)*1e3
+	var ru syscall.Rusage
+	if err := syscall.Getrusage(syscall.RUSAGE_SELF, &ru); err != nil {
+		var tv syscall.Timeval
+		_ = syscall.Gettimeofday(&tv)
+		return tv.Sec*1e9 + int64(tv.Usec)*1e3
+	}
+	return (ru.Utime.Sec+ru.Stime.Sec)*1e9 + int64(ru.Utime.Usec+ru.Stime.Usec)*1e3
 }
 
 // ErrSimIO is the injected storage error.
